@@ -17,6 +17,8 @@ for i in range(1, 21):
                            env=dict(os.environ, VERIF_SEED=s))
         m = re.search(r'counters: (\{.*\})', p.stdout)
         c = json.loads(m.group(1)) if m else {}
+        m2 = re.search(r'distinct: (\{.*\})', p.stdout)
+        c.update(json.loads(m2.group(1)) if m2 else {})
         print('seed=%s %s rc=%d %s' % (s, pid, p.returncode, p.stdout.splitlines()[0] if p.stdout else ''), flush=True)
         for l in p.stdout.splitlines():
             if l.startswith(('VIOLATION', 'INCONCLUSIVE')):
